@@ -230,7 +230,9 @@ def opKwsD : RM Res := do
       | some t => (match lo.getLast? with | some l6 => closeV3 1e-5 t.t l6.t && closeQuat 1e-5 t.q l6.q | none => false)
       | none => false)
   pure (mkRes ok "forward/links/singularity of the robot with shape differ from the model of the inner stack"
-    [P "C11.delegates" (deleg, "forward, link poses, limits or singularity differ from the underlying stack"),
+    [P "C09.shape_forward" (closeIso tolC fo (k.forward q) && closeList (closeIso tolC) lo (k.links q),
+        s!"robot with shape: forward {showIso fo} is not base * robot * tool = {showIso (k.forward q)} (or the link poses differ)"),
+     P "C11.delegates" (deleg, "forward, link poses, limits or singularity differ from the underlying stack"),
      P "C11.positioned" (placed, "positioned_robot transforms differ from the link poses")])
 
 end Opw.Drv
